@@ -2,9 +2,9 @@ import Wal.Lemmas.Neu
 /-!
 # C04 / C03, globally — every completed evaluation is position-neutral
 
-`Lemmas/Neu.lean`: for the restricted evaluator `Neu.evalN` (`eval` without `step`, `sample-at`, `find`, `unload`,
+`Lemmas/Neu.lean`: for the restricted evaluator `Neu.evalN` (`eval` without `step`, `sample-at`, `unload`,
 `set-scope`, `unset-scope`; a restriction of `eval`: `Neu.evalN_sub`), started with distinct trace ids, every evaluation
-that completes — any expression, any nesting of `reval`, `whenever`, `find/g`, `count`, calls, scopes, groups, virtual
+that completes — any expression, any nesting of `reval`, `find`, `count`, `whenever`, `find/g`, calls, scopes, groups, virtual
 signals, macro expansion, `eval` of computed code, to any depth and any fuel — leaves **every trace index what it was
 before**. This is the last sentence of C04 ("after any of these completes, every trace index is what it was before")
 and the neutrality clause of C03, for every condition and body at once rather than under a hypothesis on them.
@@ -34,5 +34,10 @@ example : ((Neu.evalN 9 { C03.st0 with tc := { C03.st0.tc with traces := [{ C03.
         .list true [.op .REL_EVAL, .sym "a" Option.none, .int (-1)]])).toOption.map
       (fun r => (match r.1 with | .int i => i | _ => -1, indicesOf r.2.tc.traces)) = some (1, [("t", 1)]))
     ∧ (C03.st0.tc.traces.map (·.tid)).Nodup := by decide
+
+/-- … and `find` (hence `count`) over a condition that nests a relative evaluation: hits 1 and 2 from index 1, back at 1 -/
+example : (Neu.evalN 9 { C03.st0 with tc := { C03.st0.tc with traces := [{ C03.tr with index := 1 }] } }
+      (.list true [.op .FIND, .list true [.op .REL_EVAL, .sym "a" Option.none, .int 1]])).toOption.map
+      (fun r => (match r.1 with | .list _ xs => xs.length | _ => 99, indicesOf r.2.tc.traces)) = some (2, [("t", 1)]) := by decide
 
 end Wal.C04
